@@ -157,8 +157,9 @@ func (r *schemaLoader) resolveRef(ref *Ref, target interface{}, basePath string)
 		}
 	}
 
-	if rv := reflect.ValueOf(res); rv.Kind() == reflect.Ptr && rv.IsNil() {
-		// a typed document yields a nil pointer for an optional member which is absent (e.g. "not", "items"...)
+	if rv := reflect.ValueOf(res); (rv.Kind() == reflect.Ptr || rv.Kind() == reflect.Map || rv.Kind() == reflect.Slice) && rv.IsNil() {
+		// a typed document yields a nil pointer, map or slice for an optional member which is absent
+		// (e.g. "not", "items", "properties", "allOf", "enum"...)
 		return fmt.Errorf("%q points to a member which is not set: %w", ref.String(), ErrSpec)
 	}
 
